@@ -129,6 +129,9 @@ type stackTransport struct {
 	reqCtx     context.Context
 	mutate     func(*http.Response)
 	bodyCloses *int
+	catchPanic bool
+	panicked   bool
+	panicVal   any
 }
 
 type countingBody struct {
@@ -163,7 +166,22 @@ func (t *stackTransport) Do(req *http.Request) (*http.Response, error) {
 	}
 	rec := newRecWriter()
 	t.rec = rec
-	t.handler.ServeHTTP(rec, sreq)
+	func() {
+		if t.catchPanic {
+			defer func() {
+				if r := recover(); r != nil {
+					t.panicked = true
+					t.panicVal = r
+				}
+			}()
+		}
+		t.handler.ServeHTTP(rec, sreq)
+	}()
+	if t.panicked {
+		// net/http would abort the response
+		_ = req.Body.Close()
+		return nil, errors.New("transport: server aborted the response")
+	}
 	// a real server drains/closes the request body when the handler returns
 	_ = req.Body.Close()
 	status, header, trailer, body := rec.finish()
